@@ -6,3 +6,7 @@ pub open spec fn eff_spread(max_spread: Option<Decimal>) -> nat {
 /// expected return for a belief price p (atomics): offer * floor(10^36/p) / 10^18
 pub open spec fn expected_return(offer: nat, p: nat) -> nat { offer * (DEC * DEC / p) / DEC }
 
+
+/// Decimal::from_ratio and Decimal * Decimal as the slippage check uses them
+pub open spec fn ratio(n: nat, d: nat) -> nat { n * DEC / d }
+pub open spec fn dmul(a: nat, b: nat) -> nat { a * b / DEC }
